@@ -681,7 +681,7 @@ template <class T> NOINLINE static void square_prepare(pbt::Ctx& c, const std::s
 	// determinant / adjugate: products of up to N entries; only exact classes, entries small enough that nothing overflows or rounds
 	const bool prod = k.sub >= SQ_DET;
 	if (prod && (k.cls == VC_GENERAL || (k.cls == VC_ALT && VT<T>::alt != ALT_WRAP))) k.cls = VC_SMALL;
-	Src<T> s(c, k.cls, N * N, prod ? 16 : 0, prod ? 10 : 14);
+	Src<T> s(c, k.cls, N * N, prod ? 16 : 0, prod ? 6 : 14);  // 16-bit wrap class: |v| < 2^6 so that the 24 four-factor products of a 4x4 determinant stay inside int (promoted arithmetic must not overflow)
 	k.a = Mx<T>(N, N);
 	fill(s, k.a);
 	c.cls(vcname<T>(k.cls)); c.cls(SQ_NAME[k.sub]);
